@@ -429,6 +429,28 @@ func containsCallTo(w *World, f *Fn, body ast.Node, litVar string) bool {
 	return found
 }
 
+// selIncrementNextTs: oracle.incrementNextTs(), or the same thing written out in place
+// (`nextTxnTs++`, `nextTxnTs += 1`).
+func selIncrementNextTs(w *World) Sel {
+	next := w.Field("badger.oracle.nextTxnTs")
+	call := selCallName(w, "badger.oracle.incrementNextTs")
+	return selPred("incrementNextTs", func(w *World, fn *Fn, n ast.Node) bool {
+		if call.Match(w, fn, n) {
+			return true
+		}
+		switch x := n.(type) {
+		case *ast.IncDecStmt:
+			return x.Tok == token.INC && w.fieldOf(x.X) == next
+		case *ast.AssignStmt:
+			if x.Tok == token.ADD_ASSIGN && len(x.Lhs) == 1 && len(x.Rhs) == 1 && w.fieldOf(x.Lhs[0]) == next {
+				v, isC := w.constInt(x.Rhs[0])
+				return isC && v == 1
+			}
+		}
+		return false
+	})
+}
+
 // R34.4: when the oracle is (re)initialised the commit watermark ends exactly one below the next
 // timestamp.
 func ruleR34_4(c *Check) {
@@ -438,7 +460,7 @@ func ruleR34_4(c *Check) {
 	done := w.Func("y.WaterMark.Done")
 	tm := w.Field("badger.oracle.txnMark")
 	next := w.Field("badger.oracle.nextTxnTs")
-	inc := selCallName(w, "badger.oracle.incrementNextTs")
+	inc := selIncrementNextTs(w)
 	var k keyer
 	n := 0
 	for _, o := range allSites(w, "badger", selCallOn(done, tm)) {
@@ -700,12 +722,25 @@ func ruleR11_1(c *Check) {
 		"if the oracle is initialised before all versions are loaded, or a commit can be allocated before it is initialised, a new commit gets a timestamp at or below a stored version and is shadowed by old data")
 	f := w.F("badger.Open")
 	next := w.Field("badger.oracle.nextTxnTs")
-	store := selStore(next)
+	// the initialising store (a plain assignment); the increment — oracle.incrementNextTs or the
+	// same thing written out (`nextTxnTs++` / `+= 1`) — is the other kind of store
+	store := selPred("nextTxnTs = …", func(w *World, fn *Fn, n ast.Node) bool {
+		as, ok := n.(*ast.AssignStmt)
+		if !ok || as.Tok != token.ASSIGN {
+			return false
+		}
+		for _, l := range as.Lhs {
+			if w.fieldOf(l) == next {
+				return true
+			}
+		}
+		return false
+	})
 	sites := f.Sites(store)
 	r.Exists(len(sites) == 1, f, "oracle initialised once", nil, "expected one store to nextTxnTs in Open")
 	for _, s := range sites {
 		as := s.(*ast.AssignStmt)
-		r.Check(w.isCallTo(as.Rhs[0], w.Func("badger.DB.MaxVersion")), f, "nextTxnTs initialised from MaxVersion()", s, "initialised from "+short(w, as.Rhs[0]))
+		r.Check(len(as.Rhs) == 1 && w.isCallTo(as.Rhs[0], w.Func("badger.DB.MaxVersion")), f, "nextTxnTs initialised from MaxVersion()", s, "initialised from "+short(w, as.Rhs[0]))
 	}
 	r.DomAll(f, "oracle initialised after memtables are replayed", store, 0, selCallName(w, "badger.DB.openMemTables"), 0)
 	r.DomAll(f, "oracle initialised after tables are loaded", store, 0, selCallName(w, "badger.newLevelsController"), 0)
@@ -713,7 +748,7 @@ func ruleR11_1(c *Check) {
 	tm, rm := w.Field("badger.oracle.txnMark"), w.Field("badger.oracle.readMark")
 	r.DomAll(f, "txnMark.Done after initialisation", selCallOn(done, tm), 0, store, 0)
 	r.DomAll(f, "readMark.Done after initialisation", selCallOn(done, rm), 0, store, 0)
-	inc := selCallName(w, "badger.oracle.incrementNextTs")
+	inc := selIncrementNextTs(w)
 	r.DomAll(f, "increment after marking done", inc, 0, selCallOn(done, tm), 0)
 	dw := selCallName(w, "badger.DB.doWrites")
 	n := r.DomAll(f, "write loop started after the oracle is ready", dw, 0, inc, 0)
@@ -967,13 +1002,26 @@ func ruleR11_5(c *Check) {
 	fl := w.F("badger.StreamWriter.Flush")
 	next := w.Field("badger.oracle.nextTxnTs")
 	st := selStore(next)
-	for _, s := range fl.Sites(st) {
-		r.Check(w.fieldOf(s.(*ast.AssignStmt).Rhs[0]) == mv, fl, "oracle continues from the streamed max version", s, "nextTxnTs set from "+short(w, s.(*ast.AssignStmt).Rhs[0]))
-	}
+	// (the oracle installation may sit in a helper that Flush calls at one place: it is looked at in
+	// whichever function holds the store)
+	inc := selIncrementNextTs(w)
 	done := w.Func("y.WaterMark.Done")
-	r.DomAll(fl, "txnMark.Done after nextTxnTs", selCallOn(done, w.Field("badger.oracle.txnMark")), 0, st, 0)
-	r.DomAll(fl, "increment after Done", selCallName(w, "badger.oracle.incrementNextTs"), 0, selCallOn(done, w.Field("badger.oracle.txnMark")), 0)
-	r.Exists(len(fl.Sites(selCallName(w, "badger.oracle.incrementNextTs"))) >= 1, fl, "increment present", nil, "Flush no longer increments nextTxnTs")
+	seenFn := map[*Fn]bool{}
+	incs := 0
+	for _, o := range fl.SitesInl(st) {
+		as, isAs := o.Node.(*ast.AssignStmt)
+		if !isAs || as.Tok != token.ASSIGN || len(as.Rhs) != 1 {
+			continue // the increment written out
+		}
+		r.Check(w.fieldOf(as.Rhs[0]) == mv, o.SiteFn, "oracle continues from the streamed max version", as, "nextTxnTs set from "+short(w, as.Rhs[0]))
+		if g := o.SiteFn; !seenFn[g] {
+			seenFn[g] = true
+			r.DomAll(g, "txnMark.Done after nextTxnTs", selCallOn(done, w.Field("badger.oracle.txnMark")), 0, selNode(as), 0)
+			r.DomAll(g, "increment after Done", inc, 0, selCallOn(done, w.Field("badger.oracle.txnMark")), 0)
+			incs += len(g.Sites(inc))
+		}
+	}
+	r.Exists(incs >= 1, fl, "increment present", nil, "Flush no longer increments nextTxnTs")
 }
 
 func propC11(c *Check) {
